@@ -224,9 +224,21 @@ func H08() {
 // words) under every iteration order and as permuted / repeated copies.
 func H10c() {
 	input := append([]string(nil), h08Lists[vChoice("list", len(h08Lists))]...)
-	extra := [][]string{{"ấn", "Ấn"}, {"ａbc", "Ａbc", "x"}, {"MacOS", "macOS", "MacOS"}}
-	if e := vChoice("extra", len(extra)+1); e > 0 {
+	extra := [][]string{{"ấn", "Ấn"}, {"ａbc", "Ａbc", "x"}, {"MacOS", "macOS", "MacOS"}, {"mcDonald", "McDonald", "iPhone", "IPhone"}}
+	ne := len(extra)
+	if e := vChoice("extra", ne+3); e > 0 && e <= ne {
 		input = append([]string(nil), extra[e-1]...)
+	} else if e > ne {
+		// one member of a twin pair repeated 256 times (multiplicity must not matter)
+		input = nil
+		rep, other := "polish", "Polish"
+		if e == ne+2 {
+			rep, other = other, rep
+		}
+		for i := 0; i < 256; i++ {
+			input = append(input, rep)
+		}
+		input = append(input, other, "one")
 	}
 	saved := append([]string(nil), input...)
 	kept := h10Kept(input)
